@@ -49,7 +49,8 @@ func checkC07(c *Ctx) {
 R07.2 in Parser.ParsePackages the append of a candidate is reached only when the scope object is non-nil, its type is *types.Named and types.IsInterface holds; NodeVisitor collects type specs whose type expression is an interface literal, an index or an index-list expression and does not descend into function bodies;
 R07.3 in RootApp.Run the per-config loop is reached only for shouldGenerate == true with a nil error, and each iteration either calls InterfaceCollection.Append exactly once or returns an error; InterfaceConfig.Initialize yields Configs = [Config] iff none were given; GetInterfaceConfig for an unlisted interface yields exactly one config;
 R07.4 every interface processed in Run first passes RootConfig.GetPackageConfig(<its package path>), whose miss is an error;
-R07.5 subPackages loads '<pkg>/...' and drops packages without Go files; during recursive expansion a discovered sub-package is skipped iff the exclusion test of the recursive package's own config matches, an already configured sub-package is kept, the parent's config is merged into every non-excluded sub-package, and the recursive packages are expanded in a fixed deepest-first order (comparator: longer path first, total tie-break).`
+R07.5 subPackages loads '<pkg>/...' and drops packages without Go files; during recursive expansion a discovered sub-package is skipped iff the exclusion test of the recursive package's own config matches, an already configured sub-package is kept, the parent's config is merged into every non-excluded sub-package, and the recursive packages are expanded in a fixed deepest-first order (comparator: longer path first, total tie-break);
+R07.6 the selection options (all, include/exclude regexes, exclude-subpkg-regex, recursive) take their effective value most-specific-first (C08 rules R08.1/R08.2 on mergeConfigs).`
 	c.NotDecided = "what packages.Load returns for a pattern; regular-expression semantics; the value-level outcome for concrete configurations."
 	c.Assumptions = []string{"go/types object resolution", "regexp.MatchString(pattern, s) argument order as documented"}
 	c.Rule("R07.1", 8, "")
@@ -57,6 +58,7 @@ R07.5 subPackages loads '<pkg>/...' and drops packages without Go files; during 
 	c.Rule("R07.3", 5, "")
 	c.Rule("R07.4", 2, "")
 	c.Rule("R07.5", 7, "")
+	configResolutionGuard(c, "R07.6")
 	r := loadRepo(c, packages.LoadSyntax, "", "./config", "./internal", "./internal/cmd")
 	ruleR071(c, r)
 	ruleR072(c, r)
@@ -395,6 +397,20 @@ func ruleR073(c *Ctx, r *Repo) {
 	if outer == nil || inner == nil {
 		c.Fail("R07.3", "Run|loops", r.Pos(run.Pos()), "cannot find the loop over parsed interfaces and, inside it, the loop over the interface's Configs")
 		return
+	}
+	// every configured package is handed to the parser: ParsePackages receives exactly the list GetPackages returned
+	{
+		fc := newFuncCanon(info, run)
+		okAll := false
+		got := ""
+		ast.Inspect(run.Body, func(n ast.Node) bool {
+			if call, ok := n.(*ast.CallExpr); ok && strings.HasSuffix(calleeName(info, call), "/internal.Parser).ParsePackages") && len(call.Args) == 2 {
+				got = fc.E(call.Args[1])
+				okAll = strings.Contains(got, ".GetPackages<(config.RootConfig).GetPackages>(") && strings.HasSuffix(got, ")#0") && !strings.Contains(got, "builtin.append(")
+			}
+			return true
+		})
+		c.Check(okAll, "R07.3", "Run|parses-all-configured", r.Pos(run.Pos()), "ParsePackages(GetPackages())", "the parser is not handed exactly the configured packages (GetPackages' result) but "+got+": a package filtered out before parsing can never contribute an interface, whatever its own include/exclude settings say")
 	}
 	// outer loop body: paths reaching the inner loop
 	d := newDT(info)
